@@ -9,6 +9,9 @@ from usim._core.loop import ActivityLeak
 sys.unraisablehook = lambda *a: None
 
 
+RETURNS = [7, 0, '', False, (), 0.0, 'x', [], {}, b'']
+
+
 class RootErr(KeyError):
     pass
 
@@ -107,7 +110,8 @@ class Experiment:
             raise RootErr(100 * rid + idx)
         self.rec('root_end', th=th, run=rid, root=idx, how=kind)
         if kind == 'ret':
-            return 7
+            # any value other than None is an unreceived result - also the falsy ones
+            return RETURNS[(rid + idx) % len(RETURNS)]
 
     def thread_main(self, th):
         self.outside(th)
